@@ -240,7 +240,14 @@ def gs_case(ctx, rng):
             spec += "slot %d %d %d %d\n" % (pos, k, iid, gl)
     sf = ctx.write("g.spec", spec.encode())
     out = ctx.path("g.out")
-    r2 = ctx.call("gearsets.write", TEMPLATE, sf, out, input_bytes=len(b))
+    # the public list may be shorter than 100 entries when it is written: the table in the file has 100 records all the same
+    short = rng.choice([0, 1, 50, 99]) if rng.random() < 0.2 else None
+    if short is not None:
+        sets = {p: s for p, s in sets.items() if p < short}
+        exp = norm_sets(sets)
+        b = uf.gs_build({p: dict(s, unk=0, slots={k: (v[0], v[1], (0, 0, 0, 0, 0)) for k, v in s["slots"].items()}) for p, s in sets.items()}, current=current)
+        ctx.stats.classes["gs-list-shorter-than-100"] += 1
+    r2 = ctx.call("gearsets.write", TEMPLATE, sf, out, *([short] if short is not None else []), input_bytes=len(b))
     ctx.check_mon(r2, len(b), files=[sf])
     if r2.ok:
         w = ctx.read("g.out")
